@@ -131,6 +131,53 @@ def build_row(l):
     return [build_ty(x) for x in l]
 
 
+# How an argument that a public constructor declares as `Iterable[...]` (tys.Either left / right, val.Left vals /
+# right_typ, val.Right left_typ / vals) is handed over.  None (the default, nothing changes for any existing caller):
+# the list itself.  Otherwise an iterable over the same elements that is NOT a list: one-shot ones (a second pass
+# over them is empty) and a re-iterable one without __len__ / __getitem__.
+ITER_MODES = ["gen", "iter", "map", "tuple", "reiter"]
+_iter_mode = [None]
+
+
+class _ReIterable:
+    def __init__(self, l):
+        self._l = list(l)
+
+    def __iter__(self):
+        return iter(list(self._l))
+
+
+def as_iterable(l):
+    m = _iter_mode[0]
+    if m is None:
+        return l
+    if m == "gen":
+        return (x for x in l)
+    if m == "iter":
+        return iter(l)
+    if m == "map":
+        return map(lambda x: x, l)
+    if m == "tuple":
+        return tuple(l)
+    if m == "reiter":
+        return _ReIterable(l)
+    raise AssertionError(m)
+
+
+class iter_mode:
+    """with iter_mode(m): every `Iterable`-typed constructor argument built inside is handed over in mode m."""
+
+    def __init__(self, m):
+        self.m = m
+
+    def __enter__(self):
+        self.old = _iter_mode[0]
+        _iter_mode[0] = self.m
+
+    def __exit__(self, *a):
+        _iter_mode[0] = self.old
+
+
 def build_ty(t):
     e = env()
     tys = e["tys"]
@@ -142,7 +189,7 @@ def build_ty(t):
     if k == "Option":
         return tys.Option(*build_row(t[1]))
     if k == "Either":
-        return tys.Either(build_row(t[1]), build_row(t[2]))
+        return tys.Either(as_iterable(build_row(t[1])), as_iterable(build_row(t[2])))
     if k == "UnitSum":
         return tys.UnitSum(t[1])
     if k == "Var":
